@@ -39,6 +39,9 @@ pub enum Case {
     Rewrite(Vec<T>, Rw),
     /// a line of blanks and/or a comment only: must evaluate to nothing
     Nothing(String),
+    /// (all-lower-case program, the same program with every occurrence of the variable name in
+    /// its own letter case): same values line by line
+    VarProgram(String, String),
 }
 
 fn recase(s: &str, how: u8) -> String {
@@ -192,6 +195,27 @@ impl Prop for C16 {
             ));
         }
         f.push(Family::new(
+            "variable-case-programs",
+            Mode::Full,
+            "programs that bind, re-bind and use one name ('total', 'monthly rent'): 'N = 10 / N = 20 / N + 1', 'N = 1 / N = N + 1 / N * 10', 'N = 5 / x = N * 2 / N = 7 / x + N', every occurrence of the name independently in lower, UPPER or Capitalised case (also the binding occurrences): same values as the all-lower-case program",
+            move |ch| {
+                let name = *ch.pick(&["total", "monthly rent"]);
+                let template = *ch.pick(&["@ = 10\n@ = 20\n@ + 1", "@ = 1\n@ = @ + 1\n@ * 10", "@ = 5\nx = @ * 2\n@ = 7\nx + @"]);
+                let parts: Vec<&str> = template.split('@').collect();
+                let mut rewritten = String::new();
+                for (i, p) in parts.iter().enumerate() {
+                    rewritten.push_str(p);
+                    if i + 1 < parts.len() {
+                        let how = ch.choose(3) as u8;
+                        // Capitalised: every word of a multi-word name
+                        let w = if how == 2 { name.split(' ').map(|w| recase(w, 2)).collect::<Vec<_>>().join(" ") } else { recase(name, how) };
+                        rewritten.push_str(&w);
+                    }
+                }
+                Some(Case::VarProgram(template.replace('@', name), rewritten))
+            },
+        ));
+        f.push(Family::new(
             "nothing",
             Mode::Full,
             "lines made of 0..=3 blanks, optionally followed by '#' + every comment text of 1..=2 atoms, optionally trailing blanks: evaluate to nothing (empty slot)",
@@ -228,6 +252,31 @@ impl Prop for C16 {
                         if o.slots.len() != 1 || o.slots[0] != Slot::Empty {
                             v.violation = Some("a line of blanks and/or a comment does not evaluate to nothing".into());
                         }
+                    }
+                }
+                v
+            }
+            Case::VarProgram(original, rewritten) => {
+                let a = obs::eval(calc, "en", original);
+                let b = obs::eval(calc, "en", rewritten);
+                let mut v = Verdict { input: rewritten.replace('\n', " \\n "), class: "rewrite-compared", compared: true, expected: format!("{} -> {}", original.replace('\n', " \\n "), a.brief()), observed: b.brief(), evals: 2, ..Default::default() };
+                match (&a, &b) {
+                    (_, Run::Panic(p)) => {
+                        v.violation = Some(format!("panic: {}", p.message));
+                        v.site = Some(p.site.clone());
+                    }
+                    (Run::Done(x), Run::Done(y)) => {
+                        let all_ok = x.slots.iter().all(|s| matches!(s, Slot::Ok { .. }));
+                        if !all_ok {
+                            v.class = "not-evaluable";
+                            v.compared = false;
+                        } else if x.slots.len() != y.slots.len() || !x.slots.iter().zip(y.slots.iter()).all(|(p, q)| matches!((p, q), (Slot::Ok { val: vp, .. }, Slot::Ok { val: vq, .. }) if obs::val_close(vp, vq, 1e-12))) {
+                            v.violation = Some("changing the letter case of a variable name changed a value".into());
+                        }
+                    }
+                    _ => {
+                        v.class = "not-evaluable";
+                        v.compared = false;
                     }
                 }
                 v
